@@ -234,7 +234,7 @@ def run_prop(ctx, prop):
         strict.append((pal, 3, pool.submit(ctx.tlc, "EngineMC", cfg("Spec", pal, 3, GOOD, SPEC_INVS, crash), "strict-%s" % pal,
                                             workers=4, timeout=2400, pure=True)))
         if thorough:
-            strict.append((pal, 4, pool.submit(ctx.tlc, "EngineMC", cfg("Spec", pal, 4, GOOD, SPEC_INVS, 0), "strict4-%s" % pal,
+            strict.append((pal, 4, pool.submit(ctx.tlc, "EngineMC", cfg("Spec", pal + "4", 4, GOOD, SPEC_INVS, 0), "strict4-%s" % pal,
                                                 workers=8, timeout=3400, pure=True)))
     # 2. negative designs: each must be rejected by one of this property's invariants; the counterexample is an attack schedule
     def attack(sw, bad, pal, crash):
